@@ -146,6 +146,13 @@ def pitch_of_concrete(name):
     return p % 12
 
 
+def pitch_number(name, octave):
+    """Oracle: 12 * octave + natural pitch of the letter + sharps - flats (not reduced: Cb-3 is 35, B#-3 is 48)."""
+    if not name or name[0] not in NAT or any(c not in "#b" for c in name[1:]):
+        return None
+    return 12 * octave + NAT[name[0]] + name[1:].count("#") - name[1:].count("b")
+
+
 def paths_of(repo, fi, make_args, summaries=None, kwargs=None, max_paths=4000, **ikw):
     """Explore every abstract path of fi(*make_args())."""
     def mk(ch):
